@@ -143,9 +143,11 @@ public :
     {
         assert(m_bufferSize > 0);
 
-        if (m_buffer.size() == m_bufferSize)
+        // (>=, because the first half of a surrogate pair
+        // stays in the buffer when it is full)
+        if (m_buffer.size() >= m_bufferSize)
         {
-            flushBuffer();
+            flushBuffer(true);
         }
 
         m_buffer.push_back(theChar);
@@ -458,6 +460,22 @@ private:
     doWrite(
             const XalanDOMChar*     theBuffer,
             size_type               theBufferLength);
+
+    /**
+     * Flush the stream's transcoding buffer.
+     *
+     * @param fHoldBackSurrogate if true (the buffer is full, more data is coming),
+     * the first half of a surrogate pair at the end of the buffer stays in the
+     * buffer until the second half arrives
+     */
+    void
+    flushBuffer(bool    fHoldBackSurrogate);
+
+    static bool
+    isLeadingSurrogate(XalanDOMChar     theChar)
+    {
+        return theChar >= 0xD800u && theChar <= 0xDBFFu;
+    }
 
 
     const size_type         m_transcoderBlockSize;
